@@ -769,4 +769,217 @@ theorem delete_abs {t : T} (hw : WF t) (s : Name) :
     rw [idxOf_lookup hw s d hl, ← delEnts_abs t d (nameAt_lt hd)]
     unfold abs; rw [he]
 
+/-! ### rename -/
+
+theorem entName_modify_name (ents : Array Ent) (i : Nat) (nm : Option Name) (e : Nat) :
+    entName (ents.modify i (fun v => { v with name := nm })) e =
+      if e = i ∧ i < ents.size then nm else entName ents e := by
+  unfold entName
+  rw [Array.getElem?_modify]
+  by_cases h : i = e
+  · subst h
+    rw [if_pos rfl]
+    by_cases hi : i < ents.size
+    · rw [if_pos ⟨rfl, hi⟩]; simp [hi]
+    · rw [if_neg (fun h => hi h.2)]; simp [Array.getElem?_eq_none (Nat.le_of_not_lt hi)]
+  · rw [if_neg h, if_neg (fun h' => h h'.1.symm)]
+
+/-- the state after unlinking entry `i` from its chain (or `t` itself when `i` is unnamed) -/
+structure Unlinked (t t1 : T) (i : Nat) : Prop where
+  hh : t1.hashspace = t.hashspace
+  he : t1.ents = t.ents
+  hbs : t1.buckets.size = t.hashspace
+  hbm : ∀ x e, x < t.hashspace → (e ∈ t1.buckets.getD x [] ↔
+          (∃ s', nameAt t e = some s' ∧ hash s' t.hashspace = x) ∧ e ≠ i)
+
+theorem unlinked_unnamed {t : T} (hw : WF t) (i : Nat) (hold : nameAt t i = none) : Unlinked t t i := by
+  refine ⟨rfl, rfl, hw.bsize, ?_⟩
+  intro x e hx
+  rw [hw.mem x e hx]
+  constructor
+  · rintro ⟨s', h1, h2⟩
+    refine ⟨⟨s', h1, h2⟩, ?_⟩
+    rintro rfl; rw [hold] at h1; cases h1
+  · exact fun h => h.1
+
+theorem unlinked_named {t : T} (hw : WF t) (i : Nat) (os : Name) (hold : nameAt t i = some os) :
+    Unlinked t (removeFromBucket t i os) i := by
+  refine ⟨rfl, rfl, by simp [removeFromBucket, hw.bsize], ?_⟩
+  intro x e hx
+  simp only [removeFromBucket]
+  rw [getD_modify _ _ _ _ (by rw [hw.bsize]; exact hash_lt os hw.hpos)]
+  split
+  · rw [mem_filter_ne, hw.mem x e hx]
+  · rename_i hne
+    rw [hw.mem x e hx]
+    constructor
+    · rintro ⟨s', h1, h2⟩
+      refine ⟨⟨s', h1, h2⟩, ?_⟩
+      rintro rfl
+      rw [hold] at h1; cases h1
+      exact hne h2
+    · exact fun h => h.1
+
+theorem rename_to_none_wf {t t1 : T} (hw : WF t) (i : Nat) (hi' : i < t.ents.size) (u : Unlinked t t1 i) :
+    WF { t1 with ents := t1.ents.modify i (fun e => { e with name := none }) } := by
+  obtain ⟨hh, he, hbs, hbm⟩ := u
+  refine ⟨by rw [hh]; exact hw.hpos, by rw [hh]; exact hbs, ?_, ?_⟩
+  · intro x e hx
+    show e ∈ t1.buckets.getD x [] ↔ ∃ s', entName (t1.ents.modify i _) e = some s' ∧ hash s' t1.hashspace = x
+    have hx' : x < t.hashspace := by
+      have : x < t1.hashspace := hx
+      rw [hh] at this; exact this
+    rw [hh, hbm x e hx', he, entName_modify_name]
+    constructor
+    · rintro ⟨⟨s', h1, h2⟩, hne⟩
+      exact ⟨s', by rw [if_neg (fun h => hne h.1)]; exact h1, h2⟩
+    · rintro ⟨s', h1, h2⟩
+      by_cases c : e = i
+      · rw [if_pos ⟨c, hi'⟩] at h1; cases h1
+      · rw [if_neg (fun h => c h.1)] at h1; exact ⟨⟨s', h1, h2⟩, c⟩
+  · intro e₁ e₂ s'
+    show entName (t1.ents.modify i _) e₁ = some s' → entName (t1.ents.modify i _) e₂ = some s' → e₁ = e₂
+    rw [he, entName_modify_name, entName_modify_name]
+    intro h1 h2
+    by_cases c1 : e₁ = i
+    · rw [if_pos ⟨c1, hi'⟩] at h1; cases h1
+    · by_cases c2 : e₂ = i
+      · rw [if_pos ⟨c2, hi'⟩] at h2; cases h2
+      · rw [if_neg (fun h => c1 h.1)] at h1; rw [if_neg (fun h => c2 h.1)] at h2
+        exact hw.uniq _ _ _ h1 h2
+
+theorem rename_to_some_wf {t t1 : T} (hw : WF t) (i : Nat) (hi' : i < t.ents.size) (u : Unlinked t t1 i)
+    (ns : Name) (hfr : ∀ e, nameAt t e ≠ some ns) :
+    WF { addString t1 ns with
+          ents := (addString t1 ns).ents.modify i (fun e => { e with name := some ns }),
+          buckets := (addString t1 ns).buckets.modify (hash ns (addString t1 ns).hashspace) (fun l => i :: l) } := by
+  obtain ⟨hh, he, hbs, hbm⟩ := u
+  obtain ⟨a1, a2, a3, _, _⟩ := addString_same t1 ns
+  refine ⟨by rw [a1, hh]; exact hw.hpos, by simp [a2, a1, hh, hbs], ?_, ?_⟩
+  · intro x e hx
+    show e ∈ ((addString t1 ns).buckets.modify (hash ns (addString t1 ns).hashspace) _).getD x [] ↔
+      ∃ s', entName ((addString t1 ns).ents.modify i _) e = some s' ∧ hash s' (addString t1 ns).hashspace = x
+    have hx' : x < t.hashspace := by
+      have : x < (addString t1 ns).hashspace := hx
+      rw [a1, hh] at this; exact this
+    rw [a1, a2, a3, hh, he, getD_modify _ _ _ _ (by rw [hbs]; exact hash_lt ns hw.hpos), entName_modify_name]
+    split
+    · rename_i hxe
+      simp only [List.mem_cons]
+      rw [hbm x e hx']
+      constructor
+      · rintro (rfl | ⟨⟨s', h1, h2⟩, hne⟩)
+        · exact ⟨ns, by rw [if_pos ⟨rfl, hi'⟩], hxe⟩
+        · exact ⟨s', by rw [if_neg (fun h => hne h.1)]; exact h1, h2⟩
+      · rintro ⟨s', h1, h2⟩
+        by_cases c : e = i
+        · exact Or.inl c
+        · rw [if_neg (fun h => c h.1)] at h1; exact Or.inr ⟨⟨s', h1, h2⟩, c⟩
+    · rename_i hxe
+      rw [hbm x e hx']
+      constructor
+      · rintro ⟨⟨s', h1, h2⟩, hne⟩
+        exact ⟨s', by rw [if_neg (fun h => hne h.1)]; exact h1, h2⟩
+      · rintro ⟨s', h1, h2⟩
+        by_cases c : e = i
+        · rw [if_pos ⟨c, hi'⟩] at h1; cases h1; exact absurd h2 hxe
+        · rw [if_neg (fun h => c h.1)] at h1; exact ⟨⟨s', h1, h2⟩, c⟩
+  · intro e₁ e₂ s'
+    show entName ((addString t1 ns).ents.modify i _) e₁ = some s' →
+      entName ((addString t1 ns).ents.modify i _) e₂ = some s' → e₁ = e₂
+    rw [a3, he, entName_modify_name, entName_modify_name]
+    intro h1 h2
+    by_cases c1 : e₁ = i <;> by_cases c2 : e₂ = i
+    · rw [c1, c2]
+    · rw [if_pos ⟨c1, hi'⟩] at h1; rw [if_neg (fun h => c2 h.1)] at h2
+      cases h1; exact absurd h2 (hfr e₂)
+    · rw [if_neg (fun h => c1 h.1)] at h1; rw [if_pos ⟨c2, hi'⟩] at h2
+      cases h2; exact absurd h1 (hfr e₁)
+    · rw [if_neg (fun h => c1 h.1)] at h1; rw [if_neg (fun h => c2 h.1)] at h2
+      exact hw.uniq _ _ _ h1 h2
+
+/-- `rename` keeps the invariant -/
+theorem rename_wf {t : T} (hw : WF t) (i : Nat) (nn : Option Name) : WF (rename t i nn).1 := by
+  unfold rename
+  split
+  · exact hw
+  rename_i hi
+  have hi' : i < t.ents.size := Nat.lt_of_not_le hi
+  cases hk : nn.bind (lookup t) with
+  | some k => exact hw
+  | none =>
+    simp only
+    cases hold : nameAt t i with
+    | none =>
+      simp only
+      cases nn with
+      | none => exact rename_to_none_wf hw i hi' (unlinked_unnamed hw i hold)
+      | some ns =>
+        have hfr : ∀ e, nameAt t e ≠ some ns := (lookup_none_iff hw ns).mp (by simpa using hk)
+        exact rename_to_some_wf hw i hi' (unlinked_unnamed hw i hold) ns hfr
+    | some os =>
+      simp only
+      cases nn with
+      | none => exact rename_to_none_wf hw i hi' (unlinked_named hw i os hold)
+      | some ns =>
+        have hfr : ∀ e, nameAt t e ≠ some ns := (lookup_none_iff hw ns).mp (by simpa using hk)
+        exact rename_to_some_wf hw i hi' (unlinked_named hw i os hold) ns hfr
+
+/-- the list-level specification of `rename` -/
+def specRename (l : List (Option Name)) (i : Nat) (nn : Option Name) : List (Option Name) :=
+  if i ≥ l.length then l
+  else match nn with
+    | some ns => if some ns ∈ l then l else l.set i (some ns)
+    | none => l.set i none
+
+theorem abs_modify_name (ents : Array Ent) (i : Nat) (nm : Option Name) :
+    (ents.modify i (fun v => { v with name := nm })).toList.map (·.name) =
+      (ents.toList.map (·.name)).set i nm := by
+  apply List.ext_getElem?
+  intro e
+  simp only [List.getElem?_map, Array.getElem?_toList, Array.getElem?_modify, List.getElem?_set, List.length_map,
+    Array.length_toList]
+  by_cases h : i = e
+  · subst h
+    simp only [if_true]
+    by_cases hi : i < ents.size
+    · simp [hi]
+    · simp [hi, Array.getElem?_eq_none (Nat.le_of_not_lt hi)]
+  · simp [h]
+
+theorem rename_abs {t : T} (hw : WF t) (i : Nat) (nn : Option Name) :
+    abs (rename t i nn).1 = specRename (abs t) i nn := by
+  unfold rename specRename
+  rw [abs_length]
+  split
+  · rfl
+  rename_i hi
+  cases nn with
+  | none =>
+    simp only [Option.bind_none]
+    cases hold : nameAt t i <;> (simp only; unfold abs; exact abs_modify_name _ i none)
+  | some ns =>
+    simp only [Option.bind_some]
+    cases hl : lookup t ns with
+    | some k =>
+      have : some ns ∈ abs t := (abs_mem t ns).mpr ⟨k, (lookup_iff hw ns k).mp hl⟩
+      simp [this]
+    | none =>
+      have hnm : some ns ∉ abs t := by
+        intro h
+        obtain ⟨e, he'⟩ := (abs_mem t ns).mp h
+        exact (lookup_none_iff hw ns).mp hl e he'
+      simp only [hnm, if_false]
+      cases hold : nameAt t i with
+      | none =>
+        simp only
+        unfold abs
+        rw [(addString_same t ns).2.2.1]
+        exact abs_modify_name _ i (some ns)
+      | some os =>
+        simp only
+        unfold abs
+        rw [(addString_same (removeFromBucket t i os) ns).2.2.1]
+        exact abs_modify_name _ i (some ns)
+
 end Qsx.Symtab
